@@ -182,6 +182,13 @@ def check_interp1(ev, acc):
         return
 
 
+def N_of(N, frac):
+    """a Fraction as a number of type N (Fraction or Decimal)"""
+    if N is F:
+        return frac
+    return N(frac.numerator) / N(frac.denominator)
+
+
 def wrap_periodic(xf, qf):
     """exact wrap of q into [x0, xn)"""
     x0, xn = xf[0], xf[-1]
@@ -201,11 +208,35 @@ def check_spline_values(ev, acc, prop, x, xf, yf, M, bc, q, qf, lane_res, tol0, 
         inside = xf[0] <= qx <= xf[-1]
         extra_tol = qx * 0
         if not inside and periodic and extrap:
-            w = wrap_periodic(xf, qx)
+            # the wrap itself always in exact rationals (a far query has hundreds of digits)
+            N = type(qx)
+            x0F, xnF, qF = F(xf[0]), F(xf[-1]), F(qx)
+            PF = xnF - x0F
+            w = N_of(N, wrap_periodic([x0F, xnF], qF))
             if L is None:
                 L = X.spline_slope_bound(xf, yf, M)
             P = xf[-1] - xf[0]
-            delta = 4 * X.unit(ty, type(qx)) * (abs(qx) + abs(xf[0]) + P)
+            # error of the wrapped argument of any implementation that forms q - x0 and reduces
+            # it modulo the float period: rounding of q - x0, k times the rounding of the
+            # period, and the final additions. (Exact - and therefore demanding - when x0 = 0
+            # and the period is representable, however far out the query lies.)
+            dF = qF - x0F
+            try:
+                d_fl = X.round_to(ty, dF)
+                P_fl = X.round_to(ty, PF)
+            except OverflowError:
+                acc.count("wrap-resolution-skipped")
+                continue
+            deltaF = 2 * abs(d_fl - dF) + 2 * (abs(dF) / PF) * abs(P_fl - PF) \
+                + 4 * X.unit(ty, F) * (abs(x0F) + PF)
+            delta = N_of(N, deltaF)
+            if deltaF * 4 > PF:
+                # neighbouring floats of the query are about a period apart: the wrapped
+                # argument is not determined by the query any more
+                acc.count("wrap-resolution-skipped")
+                continue
+            if abs(dF) > PF * 10 ** 7:
+                acc.count("far-wrap-judged")
             # Lipschitz term. The crate's wrapped argument can differ from the exact wrap by
             # delta on the circle and may even land up to delta outside the range, where the
             # end cubic is continued: |S1| is bounded there by L + max|S2| delta + max|S3| delta^2
